@@ -68,6 +68,14 @@ pub fn jobs(tier: Tier, seed: u64) -> Vec<Job> {
         let o = Opts::new(P::Seq(vec![if outer_arg { outer.opt() } else { outer }, cmd.opt()]));
         out.push(Job { opts: o, alpha: toks(&["-a", "-ab", "-aa", "-ba", "-b", "cmd", "v", "-a=v", "--"]), len: 3 });
     }
+    // help texts with code examples (indented and fenced), paragraphs, hard line breaks: the
+    // text splitter has docgen-only branches
+    for text in ["intro\n\n```\ncode line\nsecond\n```\n\nafter the block", "intro\n\n    indented code\n    more code\n\nafter", "a\n\n```text\nx\n```", "one\n two\n\nthree ``` four", "```\nstarts with a fence\n```"] {
+        let mut o = Opts::new(P::Seq(vec![P::Switch(Names::both('a', "alpha").help(text)), P::arg(Names::long("beta").help(text), Ty::Os).opt()]));
+        o.cfg.descr = Some(DocSpec::plain(text));
+        o.cfg.footer = Some(DocSpec::plain(text));
+        out.push(Job { opts: o, alpha: toks(&["-a", "--beta=v", "--help", "--zz"]), len: 2 });
+    }
     for o in crate::docfam::doc_defs(2).into_iter().step_by(tier.pick(9, 2)) {
         let mut alpha = crate::shape::shape_alphabet(&o);
         alpha.retain(|t| t.0 != b"w");
